@@ -131,6 +131,28 @@ def build_tools():
     return True, ""
 
 
+def build_controlled():
+    """instrument /repo/channel.go (current tree) with nvinstr and build bin/nvhc against it through an overlay"""
+    with Lock("gobuild"):
+        rc, so, se = run(["go", "build", "-o", os.path.join(BIN, "nvinstr"), "./cmd/nvinstr"], cwd=HARNESS, timeout=600)
+        if rc != 0:
+            return False, "go build nvinstr failed:\n" + so + se
+        d = tmpdir("nv-instr-")
+        mapping = dict(hook_overlay())
+        mapping[os.path.join(REPO, "zz_nv_rt.go")] = os.path.join(HARNESS, "overlay", "zz_nv_rt.go.txt")
+        for f in ("channel.go",):
+            outp = os.path.join(d, f)
+            rc, so, se = run([os.path.join(BIN, "nvinstr"), os.path.join(REPO, f), outp], timeout=120)
+            if rc != 0:
+                return False, "nvinstr %s failed:\n%s%s" % (f, so, se)
+            mapping[os.path.join(REPO, f)] = outp
+        ov = overlay_json(mapping)
+        rc, so, se = run(["go", "build", "-overlay", ov, "-o", os.path.join(BIN, "nvhc"), "./cmd/nvhc"], cwd=HARNESS, timeout=600)
+        if rc != 0:
+            return False, "go build nvhc (instrumented) failed:\n" + so + se
+    return True, ""
+
+
 def lean_stage(prop, gen_targets, extra_modules=()):
     """returns dict(ok, obligations, discharged, failed, axioms, log, gen_errors)"""
     res = dict(ok=False, obligations=[], discharged=[], failed=[], axioms={}, log="", gen_errors=[])
